@@ -87,17 +87,24 @@ func main() {
 	}
 	c.Rule("stage 1: streams of 150-700 records picked (orders, immediate repetitions, runs) from a pool of 30-70 generated syslog lines " +
 		"(33 B - 70 KiB, both sides of the 1024-byte pooling threshold and on the edges of the 2^11..2^17 buffer classes; with/without class, " +
-		"task, vhost; escaped, multi-line, e-mail, over-long, rejected lines), parsed on 1-3 connections in batches of 1-50 before the real " +
-		"LogProcessingWorker serializes and releases them, on worlds kept across streams or rebuilt per stream, 1 and 2 outputs in both orders, " +
-		"one pipeline or one per key set, message limit 8K/32K/60K/default; each record compared with the same line alone on a fresh pipeline. " +
-		"stage 2: stamped streams over 3-6 TCP connections through the whole agent (race build, poison on), compared per stamp. " +
+		"task, vhost; escaped, multi-line, e-mail, over-long, rejected lines); a third of the streams are runs inside 2-5 layout families " +
+		"(same token lengths and total length, so the same pooled buffer and offsets; zone offset, digits, host, text varying); " +
+		"parsed on 1-3 connections in batches of 1-50 before the real LogProcessingWorker serializes and releases them, on worlds kept across " +
+		"streams or rebuilt per stream, 1 and 2 outputs in both orders, one pipeline or one per key set, message limit 8K/32K/60K/default; " +
+		"plus layout sweeps: one family, 80-140 records one at a time, each on a world of its own; " +
+		"each record compared with the same line alone on a fresh pipeline. " +
+		"stage 2: stamped streams (general lines and family runs) over 3-6 TCP connections through the whole agent (race build, poison on, " +
+		"GOMAXPROCS 1/2/4/8), compared per stamp. " +
 		"signature = (variant, routing, stream hash, connections, batch size) resp. (agent run parameters); a case is non-trivial when a pooled " +
 		"backing buffer was handed out again at least once during it (stage 1: seen directly behind the record's bytes; stage 2: recycled buffers " +
 		"found in the agent's allocator afterwards)")
 	c.Assume("configurations are the repository's sample configuration with the sampled drop made a 100 % drop (documented exception), " +
 		"the listen address and buffer paths redirected, 1 or 2 outputs, and (variant x) mapValue + regex extract appended")
 	c.Assume("the fallback timestamp is pinned in stage 1 (Parse argument); in stage 2 the time of a record whose solo time is the fallback is not compared")
-	c.Assume("no generated input holds the byte 0xDB, so that byte in a decoded value comes from a released buffer")
+	c.Assume("no generated input holds the bytes 0xDB / 0xEE, so 0xDB in a decoded value comes from a released buffer and 0xEE from the " +
+		"transient input slice that stage 1 overwrites after Parse returned")
+	c.Assume("the solo reference runs through the same real LogProcessingWorker on fresh state: a defect that shows identically on a fresh " +
+		"pipeline (same wrong output alone and in company) is outside a differential (C10/C15), except where poison or a lost stamp shows it")
 	c.Assume("header tokens are ASCII: invalid UTF-8 in metric key fields is C07's subject")
 	c.Assume("stage 2 sends only lines that frame unambiguously (no look-alike record starts, nothing above the listener's soft limit); " +
 		"a multi-line record cut at a line end by a flush tick is judged against the solo run of that prefix")
